@@ -168,13 +168,17 @@ def gen_amesh(rng, max_ops=8, tri_only=False, closed_only=False, partial=None):
     if r < 0.15:
         # one node exactly on the antimeridian (lon-lat sources only use lon/lat; xyz recomputed)
         i = rng.randrange(am.n_node)
-        if abs(am.lat[i]) < 89:
-            am.lon[i] = rng.choice([180.0, -180.0])
+        new = rng.choice([180.0, -180.0])
+        # never onto another node: corners of one face stay pairwise distinct positions
+        if abs(am.lat[i]) < 89 and all(abs(am.lat[j] - am.lat[i]) > 1e-6 or abs(abs(am.lon[j]) - 180.0) > 1e-6
+                                       for j in range(am.n_node) if j != i):
+            am.lon[i] = new
             am.xyz[i] = lonlat_to_xyz(am.lon[i], am.lat[i])
             am.name += ",am180"
     elif r < 0.25:
         i = rng.randrange(am.n_node)
-        if abs(am.lat[i]) < 89:
+        if abs(am.lat[i]) < 89 and all(abs(am.lat[j] - am.lat[i]) > 1e-6 or abs(am.lon[j]) > 1e-6
+                                       for j in range(am.n_node) if j != i):
             am.lon[i] = 0.0
             am.xyz[i] = lonlat_to_xyz(0.0, am.lat[i])
             am.name += ",lon0"
@@ -257,6 +261,25 @@ def img(arr):
     out = []
     for r in np.asarray(arr).tolist():
         out.append([NAN if (isinstance(x, float) and math.isnan(x)) else int(x) for x in r])
+    return out
+
+
+def shuffle_vars(ds, rng, extra=True):
+    """the same dataset with its variables inserted in another order (connectN keep their relative order:
+    that order is the Exodus file order of the element blocks) and an unrelated extra variable"""
+    names = list(ds.variables)
+    keep = [n for n in names if n.startswith("connect")]
+    perm = list(names)
+    rng.shuffle(perm)
+    it = iter(keep)
+    perm = [next(it) if n.startswith("connect") else n for n in perm]
+    out = xr.Dataset(attrs=dict(ds.attrs))
+    if extra and rng.random() < 0.5:
+        out["verif_extra"] = xr.DataArray(np.arange(3.0), dims=["verif_dim"], attrs={"long_name": "unrelated"})
+    for n in perm:
+        out[n] = ds[n]
+    if extra and "verif_extra" not in out:
+        out["verif_extra"] = xr.DataArray(np.arange(3.0), dims=["verif_dim"], attrs={"long_name": "unrelated"})
     return out
 
 
@@ -465,7 +488,7 @@ def build_topo(am, d, rng):
 def mpas_dialect(rng, am, force=None):
     d = {"dual": rng.random() < 0.35 and am.closed and am.manifold(),
          "pad": rng.choice(["zeros", "repeat_last", "junk"]),
-         "dtype": rng.choice(["int32", "int32", "int64"]),
+         "dtype": rng.choice(["int32", "int64", "int64", "float64"]),
          "lon": rng.choice(["360", "360", "180"]),
          "extra_w": rng.choice([0, 0, 1, 2]),
          "xyz": rng.random() < 0.5,
@@ -649,7 +672,9 @@ def build_scrip(am, d, rng):
 
 def exodus_dialect(rng, am, force=None):
     d = {"coord": rng.choice(["coord", "coord", "xyz"]), "dtype": rng.choice(["int32", "int32", "int64"]),
-         "blocks": "by_size" if not am.uniform() and rng.random() < 0.7 else "single"}
+         "blocks": rng.choice(["runs", "runs", "by_size", "single"]), "n_blocks": rng.randrange(1, 15)}
+    if am.uniform() and d["blocks"] == "by_size":
+        d["blocks"] = "single"
     if force:
         d.update(force)
     return d
@@ -660,6 +685,22 @@ def build_exodus(am, d, rng):
     ds = xr.Dataset()
     if d["blocks"] == "single":
         blocks = [list(range(am.n_face))]
+    elif d["blocks"] == "runs":
+        # file order = face order: consecutive faces of one size form a block; runs are split further until
+        # about n_blocks blocks exist (several blocks of the same face size, ten and more blocks)
+        blocks = []
+        for i, f in enumerate(am.faces):
+            if blocks and len(am.faces[blocks[-1][-1]]) == len(f):
+                blocks[-1].append(i)
+            else:
+                blocks.append([i])
+        while len(blocks) < d.get("n_blocks", 1):
+            big = [k for k, b in enumerate(blocks) if len(b) > 1]
+            if not big:
+                break
+            k = rng.choice(big)
+            cut = rng.randrange(1, len(blocks[k]))
+            blocks[k:k + 1] = [blocks[k][:cut], blocks[k][cut:]]
     else:
         sizes = []
         for f in am.faces:
